@@ -244,8 +244,17 @@ def main():
         lg.addHandler(logging.StreamHandler(open(os.devnull, 'w')))
     if mode == 'warm':
         noise(random.Random(seed + 99991))
+    crowd = []
+    if mode == 'crowded':
+        # thousands of other connections alive in the same process, each with a filled table, while the histories run
+        filler = [('x-filler-%02d' % i, 'v' * 60) for i in range(40)]
+        for i in range(4000):
+            q = Pair.__new__(Pair)
+            q.e = Encoder(); q.d = Decoder()
+            q.d.decode(q.e.encode(filler, huffman=False), raw=True)
+            crowd.append(q)
     pairs = [Pair() for _ in range(n)]
-    if mode in ('isolated', 'warm'):
+    if mode in ('isolated', 'warm', 'crowded'):
         for p, h in zip(pairs, hist):
             for op in h:
                 p.step(op)
@@ -266,7 +275,7 @@ def main():
                 if k < len(h):
                     p.step(h[k]); more = True
             k += 1
-    if mode not in ('isolated', 'warm'):
+    if mode not in ('isolated', 'warm', 'crowded'):
         # overlapping use: while pair k's encode() is consuming its (lazy) header iterable, pair k+1 encodes a block
         order = list(reversed(range(len(pairs)))) if mode == 'reversed' else list(range(len(pairs)))
         inner_done = set()
